@@ -230,11 +230,11 @@ func (j *mergejoin[T]) onSubCollectionEventHandler(o []Event[T]) {
 				j.log.WithLabels("iKey", objKey).Errorf("invalid event, deletion of non-existent object")
 				continue
 			}
-			e := Event[T]{
+			// Deliver the delete with the merged output as Old; it is appended once, below.
+			ev = Event[T]{
 				Event: controllers.EventDelete,
 				Old:   &oldRes,
 			}
-			events = append(events, e)
 			delete(j.outputs, objKey)
 			for _, index := range j.indexes {
 				index.delete(oldRes, objKey)
